@@ -19,6 +19,49 @@ fn any_base() -> u8 {
     [b'A', b'C', b'T', b'G'][c as usize]
 }
 
+// the two index-loop mirrors of `new`'s accumulation loops; the SAME file is extracted by vx into the Verus unit
+// `kmer`, where the mirrors are proved equal to the folds fh_n / rh_n for every k
+include!("/verif/specs/nthash_mirror.rs");
+
+// discharges the two assume_specification's of the Verus unit: rotate_left / rotate_right are the shift formulas
+#[kani::proof]
+fn rotate_spec_all_values() {
+    let x: u64 = kani::any();
+    let n: u32 = kani::any();
+    let m = n % 64;
+    let l = if m == 0 { x } else { (x << m) | (x >> (64 - m)) };
+    let r = if m == 0 { x } else { (x >> m) | (x << (64 - m)) };
+    assert!(x.rotate_left(n) == l);
+    assert!(x.rotate_right(n) == r);
+}
+
+// the real `new` (iterator adapters enumerate / rev) computes what the index-loop mirrors compute, per k
+macro_rules! nthash_new {
+    ($name:ident; $k:expr, $unw:expr) => {
+        #[kani::proof]
+        #[kani::unwind($unw)]
+        fn $name() {
+            const K: usize = $k;
+            let mut w = [b'A'; K];
+            let mut i = 0;
+            while i < K {
+                w[i] = kani::any();
+                i += 1;
+            }
+            let rc: bool = kani::any();
+            let it = NtHashIterator::new(&w[0..K], K, rc);
+            assert!(it.k == K);
+            assert!(it.fh == nthash_fwd_mirror(&w[0..K], K));
+            if rc {
+                assert!(it.rh == Some(nthash_rev_mirror(&w[0..K], K)));
+            } else {
+                assert!(it.rh.is_none());
+            }
+            kani::cover!(rc);
+        }
+    };
+}
+
 // the reverse-strand table is the forward table of the complemented base (all 4 entries)
 #[kani::proof]
 fn nthash_tables_complementary() {
@@ -94,13 +137,41 @@ macro_rules! nthash_sym {
     };
 }
 
+nthash_new!(nthash_new_k5; 5, 9);
+nthash_new!(nthash_new_k7; 7, 11);
+nthash_new!(nthash_new_k15; 15, 19);
+nthash_new!(nthash_new_k31; 31, 35);
+nthash_new!(nthash_new_k33; 33, 37);
+nthash_new!(nthash_new_k63; 63, 67);
+nthash_new!(thorough_nthash_new_k9; 9, 13);
+nthash_new!(thorough_nthash_new_k11; 11, 15);
+nthash_new!(thorough_nthash_new_k13; 13, 17);
+nthash_new!(thorough_nthash_new_k17; 17, 21);
+nthash_new!(thorough_nthash_new_k19; 19, 23);
+nthash_new!(thorough_nthash_new_k21; 21, 25);
+nthash_new!(thorough_nthash_new_k23; 23, 27);
+nthash_new!(thorough_nthash_new_k25; 25, 29);
+nthash_new!(thorough_nthash_new_k27; 27, 31);
+nthash_new!(thorough_nthash_new_k29; 29, 33);
+nthash_new!(thorough_nthash_new_k35; 35, 39);
+nthash_new!(thorough_nthash_new_k37; 37, 41);
+nthash_new!(thorough_nthash_new_k39; 39, 43);
+nthash_new!(thorough_nthash_new_k41; 41, 45);
+nthash_new!(thorough_nthash_new_k43; 43, 47);
+nthash_new!(thorough_nthash_new_k45; 45, 49);
+nthash_new!(thorough_nthash_new_k47; 47, 51);
+nthash_new!(thorough_nthash_new_k49; 49, 53);
+nthash_new!(thorough_nthash_new_k51; 51, 55);
+nthash_new!(thorough_nthash_new_k53; 53, 57);
+nthash_new!(thorough_nthash_new_k55; 55, 59);
+nthash_new!(thorough_nthash_new_k57; 57, 61);
+nthash_new!(thorough_nthash_new_k59; 59, 63);
+nthash_new!(thorough_nthash_new_k61; 61, 65);
+// end-to-end cross-checks on the real code alone (independent of the Verus route), small k only: XOR chains are
+// hard for SAT, k = 31 takes minutes
 nthash_roll!(nthash_roll_k5; 5, 9);
-nthash_roll!(nthash_roll_k7; 7, 11);
-nthash_roll!(thorough_nthash_roll_k31; 31, 35);
+nthash_roll!(thorough_nthash_roll_k7; 7, 11);
 nthash_roll!(thorough_nthash_roll_k15; 15, 19);
-nthash_roll!(thorough_nthash_roll_k33; 33, 37);
-nthash_roll!(thorough_nthash_roll_k63; 63, 67);
 nthash_sym!(nthash_sym_k5; 5, 9);
-nthash_sym!(nthash_sym_k7; 7, 11);
+nthash_sym!(thorough_nthash_sym_k7; 7, 11);
 nthash_sym!(thorough_nthash_sym_k15; 15, 19);
-nthash_sym!(thorough_nthash_sym_k31; 31, 35);
